@@ -234,6 +234,18 @@ func (d *drv) apply(ev string, step int, before obs) (applicable bool, err error
 		opts := wire.Options{AS4: true}
 		u := &wire.Update{Attrs: pa.Build(opts), NLRI: []wire.NLRI{updRoute(k)}}
 		b, _ := u.Encode(opts)
+		// every third UPDATE has the largest legal size: padded with communities (and, for the remainder, a MED
+		// and further NLRI of the same route) to exactly 4096 octets
+		h := k
+		for _, e := range d.c.Events {
+			h = h*31 + len(e)
+		}
+		if h%3 == 0 {
+			if big := maxSizeUpdate(pa, opts, k); big != nil {
+				b = big
+				d.res.Count("updates_of_exactly_4096_octets", 1)
+			}
+		}
 		d.s.Send(b)
 		d.sentIn[k] = before.State
 		if before.State == m.StEstablished {
@@ -244,6 +256,33 @@ func (d *drv) apply(ev string, step int, before obs) (applicable bool, err error
 }
 
 func updRoute(k int) wire.NLRI { return wire.V4(100, 80, byte(k), 0, 24) }
+
+// maxSizeUpdate pads the attributes so that the UPDATE announcing updRoute(k) is exactly 4096 octets long.
+func maxSizeUpdate(pa *wire.PathAttrs, opts wire.Options, k int) []byte {
+	base := append([]uint32{}, pa.Communities...)
+	for extra := 0; extra < 4; extra++ { // 0-3 additional more specific NLRI shift the length by 5 octets each
+		nlri := []wire.NLRI{updRoute(k)}
+		for j := 0; j < extra; j++ {
+			nlri = append(nlri, wire.V4(100, 80, byte(k), byte(1+j), 32))
+		}
+		for n := 960; n < 1020; n++ {
+			q := *pa
+			q.Communities = append([]uint32{}, base...)
+			for j := 0; j < n; j++ {
+				q.Communities = append(q.Communities, 0xfdeb0000|uint32(j))
+			}
+			u := &wire.Update{Attrs: q.Build(opts), NLRI: nlri}
+			b, err := u.Encode(opts)
+			if err == nil && len(b) == 4096 {
+				return b
+			}
+			if len(b) > 4096 {
+				break
+			}
+		}
+	}
+	return nil
+}
 
 // settle is the synchronisation point after an event. An FSM that does not take the barrier has ended
 // (Ceased): after a Cease event that is expected and decided quickly; after any other event the barrier
@@ -523,7 +562,7 @@ func main() {
 		return
 	}
 	vf.Main("C23", "exploration", func(r *vf.Run) {
-		r.Rule("event sequences over the 14 non-timer event classes {ManualStart, ManualStop, AutomaticStart, AutomaticStop, Cease, ConnDelivered, ConnClosed, OpenValid, OpenInvalid, Keepalive, Update, Notification, Garbage, WriteFailure}: EVERY sequence of length ≤ 3 (thorough: ≤ 4) from a fresh peer, alternating active/passive and iBGP/eBGP; every sequence of length ≤ 2 (thorough: ≤ 3) after each prelude that drives the valid conversation to Connect / OpenSent / OpenConfirm / Established; sampled sequences of length 3 after a prelude and of length 5–8; sequences with real waits (1.3 s > bio-rd's OpenSent hold time and > the keepalive time of a 3 s session; hold time + 1.3 s) on peers with a 3 s hold time. Events that cannot be delivered in the present situation (a message without an open connection, a connection while no FSM waits for one) are no-ops in model and implementation. distinct_nontrivial = distinct (peer mode, session kind, prelude, sequence)")
+		r.Rule("event sequences over the 14 non-timer event classes {ManualStart, ManualStop, AutomaticStart, AutomaticStop, Cease, ConnDelivered, ConnClosed, OpenValid, OpenInvalid, Keepalive, Update, Notification, Garbage, WriteFailure}: EVERY sequence of length ≤ 3 (thorough: ≤ 4) from a fresh peer (every third UPDATE is padded to exactly 4096 octets, the largest legal message), alternating active/passive and iBGP/eBGP; every sequence of length ≤ 2 (thorough: ≤ 3) after each prelude that drives the valid conversation to Connect / OpenSent / OpenConfirm / Established; sampled sequences of length 3 after a prelude and of length 5–8; sequences with real waits (1.3 s > bio-rd's OpenSent hold time and > the keepalive time of a 3 s session; hold time + 1.3 s) on peers with a 3 s hold time. Events that cannot be delivered in the present situation (a message without an open connection, a connection while no FSM waits for one) are no-ops in model and implementation. distinct_nontrivial = distinct (peer mode, session kind, prelude, sequence)")
 		r.Assume("the abstract model is internal/sess2/model.go: successor SETS per RFC 4271 §8.2.2; optional events (AutomaticStart/Stop) may be ignored; a remote close may go unnoticed until a timer fires; Ceased stands for the FSM object being destroyed",
 			"attached is observed from outside the FSM: LocRIB.ClientCount() > 0 and vrf.IsContributingASN(local AS) on a server with exactly one peer",
 			"an unexpected step to Idle is accepted as a timer expiry only if bio-rd wrote NOTIFICATION 4 on the connection")
